@@ -202,7 +202,7 @@ func (r *rpRun) apply(i int, op rpOp) {
 			tp = []string{} // "no topics" is an empty list, nil or not
 		}
 		if op.Res != "notopic" {
-			tp = op.Tp
+			tp = permTopics(op.Tp, i+len(b.Ops))
 			if op.Res == "idmismatch" {
 				tp = []string{""}
 			}
@@ -272,7 +272,7 @@ func (r *rpRun) replay(p rpProbe, failSend int, failFlush bool) (w *recWriter, k
 	w = &recWriter{failSend: failSend, failFlush: failFlush}
 	func() {
 		defer func() { panicked = recover() }()
-		err = r.rep.Replay(sse.Subscription{Client: w, LastEventID: r.lid(p.Lid), Topics: p.Tp})
+		err = r.rep.Replay(sse.Subscription{Client: w, LastEventID: r.lid(p.Lid), Topics: permTopics(p.Tp, len(r.b.Ops)+len(p.Tp))})
 	}()
 	for _, m := range w.sent {
 		k, ok := r.idOf[m.ID.String()]
@@ -282,6 +282,18 @@ func (r *rpRun) replay(p rpProbe, failSend int, failFlush bool) (w *recWriter, k
 		ks = append(ks, k)
 	}
 	return
+}
+
+// permTopics: topic lists are sets - the order in which a caller lists them must not matter (every other list is reversed)
+func permTopics(tp []string, k int) []string {
+	if k%2 == 0 || len(tp) < 2 {
+		return tp
+	}
+	out := make([]string, len(tp))
+	for i, t := range tp {
+		out[len(tp)-1-i] = t
+	}
+	return out
 }
 
 func intsEq(a, b []int) bool {
